@@ -93,6 +93,11 @@ class C10(Check):
                 es = rng.choice(multi)
                 es[0][2]['delay'] = (rng.randint(2, 12) + rng.uniform(-0.4, 0.4)) * dt
                 es[1][2]['delay'] = rng.choice([1.0, 1.0, 0.5, 0.25]) * dt
+        if stratum in ('S-edges', 'S-edges-vec') and rng.random() < 0.12:
+            # more than ten DISTINCT delays read from one state variable (a hub fanning out to 11-15 nodes)
+            spec = models.gen_big(rng, kind='fan', n=rng.randint(12, 16),
+                                  delays=lambda r: {'delay': (r.randint(2, 30) + r.uniform(-0.4, 0.4)) * dt})
+            mixed = False
         set_taus(rng, spec, dt, steps)
         if mixed and not spec.get('circuits'):
             # the edge delay EQUALS the delay parameter of the operator whose variable it leaves (two delayed reads of one
